@@ -17,6 +17,9 @@ CLAIMS = {
  'C08': 'Inductive steps for bond / unbond / withdraw of the bonding contract with symbolic block time, record timestamps and unbonding period (so same block, +1ns, period-1, period are all in the domain), 0..2 (thorough 3) pending records plus another user\'s record, everyone else as symbolic aggregates: conservation, exact maturity rule, owner-only payout, Withdrawable query = withdraw.',
  'C09': 'Inductive steps for claim and for the new-epoch reply of the fee distributor over 2..3 stored epochs with symbolic consecutive ids, 1..2 assets, symbolic grace period, cursor and shares: claimed+available=total, payout = ledger decrease = floor(total*share), window and cursor rules, double claim rejected, rollover of the expiring epoch exactly once.',
  'C10': 'Message-shape and reply obligations of the fee collector: ForwardFees authorisation (symbolic sender) and its four ordered self-submessages, one CollectProtocolFees per factory child, aggregation skip rules and exact amounts for native and cw20 assets with route / simulation outcomes enumerated, the take-rate reply (exact floor, history entry, remainder to the distributor, epoch echo).',
+ 'C11': 'Inductive steps for open / expand (for self and for a receiver), close and withdraw of the incentive contract with native and cw20 LP: a position only grows by an amount actually received (attached funds or TransferFrom covered by the allowance), the beneficiary\'s ledger changes by exactly that, nobody else\'s changes, withdraw pays exactly the caller\'s closed positions to the caller.',
+ 'C12': 'Steps for open_flow in all six fee-asset x flow-asset configurations, expand_flow and close_flow (native/cw20, with and without expansion), with symbolic sender for close: funded == received, fee to the collector, refund = funded - claimed to the creator, authorisation. Four defects are carved out as known findings.',
+ 'C13': 'calculate_weight function-level (>= amount, monotone in amount and duration by lemma chaining, range error); GLOBAL = sum of address weights per step and over the history open;expand;close; claim vs rewards-query differential for 2-3 unclaimed epochs, 1-2 flows, expansions; double claim; per-claim bounds; share sum <= 100% over a history with the snapshot before/after a close.',
  'C15': 'assert_max_spread (spread and belief-price clauses, default and cap) and the pair slippage-tolerance test with fully symbolic arguments, the arguments swap passes to the slippage check, and the router: AssertMinimumReceive appended last with the receiver balance, and Ok <=> balance delta >= minimum.',
  'C20': 'Every path of the real epoch-manager create_epoch entry point from an arbitrary stored epoch/config with symbolic block time, 0..3 hooks: accepted calls are never early and advance id/start by exactly one step; permissionless.',
 }
